@@ -92,7 +92,9 @@ var coreRots = map[string][]int{
 	"mem": {0, 1, 2, 3, 4, 5, 6, 7, 8, 9, 10, 11, 12, 13},
 }
 
-func rotsOf(key string, extra ...int) string { return rotSet(append(append([]int{}, coreRots[key]...), extra...)...) }
+func rotsOf(key string, extra ...int) string {
+	return rotSet(append(append([]int{}, coreRots[key]...), extra...)...)
+}
 
 // isCore reports whether a shape belongs to the seed- and tier-independent core.
 func isCore(sh *Shape) bool {
